@@ -469,6 +469,19 @@ theorem body_mono {rec rec' : Rec} (h : RecLe rec rec') (cx : Ctx) {k k' : Nat} 
     simp only [body, Option.map_eq_some_iff] at hb ⊢
     obtain ⟨r0, h0, rfl⟩ := hb
     exact ⟨r0, h _ _ _ _ _ _ h0, rfl⟩
+  | ifApply c acts =>
+    simp only [body] at hb ⊢
+    split at hb
+    · rename_i hc
+      rw [if_pos hc]
+      simp only [Option.map_eq_some_iff] at hb ⊢
+      obtain ⟨r0, h0, rfl⟩ := hb
+      exact ⟨r0, h _ _ _ _ _ _ h0, rfl⟩
+    · rename_i hc
+      rw [if_neg hc]
+      exact h _ _ _ _ _ _ hb
+  | applyR acts => simpa only [body] using hb
+  | control kc c => simp only [body] at hb ⊢; exact h _ _ _ _ _ _ hb
 
 /-- The match.hpp protocol around a body is monotone as well. -/
 theorem nodeCore_mono {rec rec' : Rec} (h : RecLe rec rec') (cx : Ctx) {k k' : Nat} (hk : k ≤ k')
@@ -529,6 +542,7 @@ theorem nodeCall_mono {rec rec' : Rec} (h : RecLe rec rec') (cx : Ctx) {k k' : N
     · simp only [Option.map_eq_some_iff] at h0 ⊢
       obtain ⟨r1, h1, rfl⟩ := h0
       exact ⟨r1, h _ _ _ _ _ _ h1, rfl⟩
+    · exact nodeCore_mono h cx hk _ _ _ _ _ _ _ h0
 
 theorem run_step (cx : Ctx) : ∀ n, RecLe (run cx n) (run cx (n + 1)) := by
   intro n
